@@ -849,6 +849,71 @@ def run_value_follows_index(chk, F):
            key='E10|fill_and_pair|value-follows-index')
 
 
+def run_state_entries(chk, F):
+    """E8-state-entry: the 1-D routine is a machine of labelled states; `state132` and `state312` assume an ordering of
+    the three values on top of the stack. A jump into one of them that has just pushed the sample `v` is taken only
+    where `v` was compared with the value that becomes the third from the top (`data.end()[-2]` before the push, or
+    `data[0]` when two values are stacked): the push-and-jump sits in an arm of - or falls through from - a test
+    mentioning both. A jump that pushes and enters the state without that comparison breaks the ordering the state
+    relies on (two intervals exchange their ends)."""
+    fs = [f for f in F.functions if f['name'].startswith('compute_persistence_of_function_on_line') and
+          f.get('inst') in (0, 2) and f.get('body') is not None]
+    if not fs:
+        raise AnalysisBroken('C14: the 1-D routine was not found')
+    f = fs[0]
+    n = 0
+    bad = None
+    for blk in ir.walk(f['body']):
+        if blk.get('k') != 'CompoundStmt':
+            continue
+        sts = blk.get('c') or []
+        flat = []
+        for st in sts:                         # a label wraps the statement that follows it
+            while st is not None and st.get('k') == 'LabelStmt':
+                flat.append(st)
+                st = st.get('sub')
+            if st is not None:
+                flat.append(st)
+        for i, st in enumerate(flat):
+            if st.get('k') != 'GotoStmt' or st.get('label') not in ('state132', 'state312'):
+                continue
+            span = []
+            for prev in flat[:i][::-1]:
+                if prev.get('k') == 'LabelStmt':
+                    break
+                span.append(prev)
+            labelled = [prev for prev in flat[:i][::-1] if prev.get('k') == 'LabelStmt'][:1]
+            # (the statement a label wraps belongs to the span: flat lists it right after the label)
+            if not any(sp.get('k') != 'IfStmt' and 'push_back(v)' in ir.show(sp) for sp in span):
+                continue
+            n += 1
+            # the guarding comparison: an enclosing if of this block, or an earlier if of the same block that leaves
+            par = ir.parents(f['body'])
+            conds = []
+            cur = blk
+            while id(cur) in par:
+                up = par[id(cur)]
+                if up.get('k') == 'IfStmt':
+                    conds.append(ir.show(up.get('cond')))
+                if up.get('k') == 'LabelStmt':
+                    break
+                cur = up
+            for prev in span:
+                if prev.get('k') == 'IfStmt':
+                    conds.append(ir.show(prev.get('cond')))
+            ok = any(re.search(r'\bv\b', c) and ('data.end()[-2]' in c.replace(' ', '') or 'data[0]' in c.replace(' ', ''))
+                     for c in conds)
+            if not ok and bad is None:
+                bad = st
+    if n == 0:
+        raise AnalysisBroken('C14: no push-and-jump into state132 / state312 found in the 1-D routine')
+    chk.ob('E8-state-entry', 'the 1-D routine pushes a sample and enters state132 / state312 only after comparing it with '
+           'the value below the top (%d entries)' % n, '%s:%d' % (rel(f['file']), f['line']), bad is None,
+           '' if bad is None else 'line %s: `goto %s` after a push, with no comparison of `v` with `data.end()[-2]` on '
+           'the way: the ordering the state assumes is not established' % (bad.get('l'), bad.get('label')),
+           key='E8|persistence_on_a_line|state-entry')
+
+
 def run(tier, replay=None):
     chk = Check('C14', tier,
                 'Static decision of structural clauses of the specialised routines. 2-D: fill_and_pair is evaluated '
@@ -871,6 +936,7 @@ def run(tier, replay=None):
     run_line(chk, F)
     run_no_state(chk, F)
     run_value_follows_index(chk, F)
+    run_state_entries(chk, F)
     # Edge::operator< is the strict order on the edge value
     eo = [f for f in F.functions if f['name'] == 'operator<' and f.get('clsname') == 'Edge']
     if len(eo) == 1:
